@@ -7,6 +7,27 @@
 
 mod local;
 
+struct Counting;
+
+unsafe impl std::alloc::GlobalAlloc for Counting {
+    unsafe fn alloc(&self, l: std::alloc::Layout) -> *mut u8 {
+        litep2p::verif::alloc_note(l.size());
+        std::alloc::System.alloc(l)
+    }
+    unsafe fn dealloc(&self, p: *mut u8, l: std::alloc::Layout) {
+        litep2p::verif::dealloc_note(l.size());
+        std::alloc::System.dealloc(p, l)
+    }
+    unsafe fn realloc(&self, p: *mut u8, l: std::alloc::Layout, n: usize) -> *mut u8 {
+        litep2p::verif::dealloc_note(l.size());
+        litep2p::verif::alloc_note(n);
+        std::alloc::System.realloc(p, l, n)
+    }
+}
+
+#[global_allocator]
+static GLOBAL: Counting = Counting;
+
 use std::io::{BufRead, Write};
 use std::panic::{catch_unwind, AssertUnwindSafe};
 
